@@ -380,4 +380,122 @@ theorem seenFins_whole (ms : List HsMsg) (hok : ∀ m ∈ ms, MsgOk m) : seenFin
   rw [this]
   exact count20_map ms
 
+-- ====================================================================== 4. with `-a` (metadata export on)
+theorem dirPlain_push1 (d' d : Bool) (tr : List Session.Entry) (data : Bytes) (r : Session.Rec) (a : Bool) :
+    dirPlain d' (tr ++ [⟨some data, r, d, a⟩]) = dirPlain d' tr ++ (if d' = d then data else []) :=
+  dirPlain_push d' d tr data r a
+
+/-- a ChangeCipherSpec record with `-a`: the record itself is exported -/
+theorem handle_ccs_meta (O : Session.Ops Dec) (s : Session.St Dec) (r : Session.Rec) (d : Bool)
+    (ht : r.typ = some 0x14) :
+    (Session.handleRecord O true s r d).traffic = s.traffic ++ [⟨some r.raw, r, d, false⟩] := by
+  simp only [Session.handleRecord, Session.handleRecordRaw, ht]
+  have h1 : ((0x14 : UInt8) = 0x16) = False := by decide
+  have h2 : ((0x14 : UInt8) = 0x17) = False := by decide
+  have h3 : ((0x14 : UInt8) = 0x15) = False := by decide
+  simp only [h1, h2, h3, if_false, if_true, Session.Out.st]
+  cases d <;> simp [Session.pushMeta, Session.St.push]
+
+/-- a clear-text handshake record that is no hello, gate closed, with `-a`: state untouched, the record exported -/
+theorem handle_clear_meta (O : Session.Ops Dec) (s : Session.St Dec) (ver body : Bytes) (hv : ver.length = 2)
+    (car : List Nat) (d : Bool) (hb : ∀ t ∈ body.head?, t ≠ 1 ∧ t ≠ 2) (h : s.dec = none ∨ ccOf s d = false) :
+    Session.handleRecord O true s ⟨record 22 ver body, car⟩ d
+      = s.push ⟨some (record 22 ver body), ⟨record 22 ver body, car⟩, d, false⟩ := by
+  have hfin : Session.tryExcept (Session.handshakeFinished O true s ⟨record 22 ver body, car⟩ d) id = .ok s := by
+    unfold Session.handshakeFinished
+    cases hdec : s.dec with
+    | none => rfl
+    | some dd =>
+      have hcc : ccOf s d = false := by
+        rcases h with h | h
+        · rw [hdec] at h; cases h
+        · exact h
+      have hgate : (s.srvCC && d && s.canDecrypt || s.cliCC && !d && s.canDecrypt) = false := by
+        cases d <;> simp only [ccOf, if_true, Bool.false_eq_true, if_false] at hcc <;> simp [hcc]
+      simp only [hgate, Bool.false_eq_true, if_false, if_true]
+      rfl
+  unfold Session.handleRecord Session.handleRecordRaw
+  rw [record_typ]
+  simp only [if_true]
+  have hst : Session.handshakeRecord O true s ⟨record 22 ver body, car⟩ d = .ok s := by
+    unfold Session.handshakeRecord
+    split
+    · exact hfin
+    · rw [record_body 22 ver body car hv]
+      cases body with
+      | nil => rfl
+      | cons t rest =>
+        have ht := hb t (by simp)
+        simp only [ht.1, ht.2, if_false]
+        exact hfin
+  rw [hst]
+  rfl
+
+/-- a hello record (first body byte 1 or 2) while no ChangeCipherSpec has been seen, with `-a`: the record itself is
+    exported, nothing else -/
+theorem handle_hello_meta (O : Session.Ops Dec) (s : Session.St Dec) (r : Session.Rec) (d : Bool)
+    (ht : r.typ = some 0x16) (h0 : s.srvCC = false ∧ s.cliCC = false) (t : UInt8) (rest : Bytes)
+    (hb : r.body = t :: rest) (ht12 : t = 1 ∨ t = 2) :
+    (Session.handleRecord O true s r d).traffic = s.traffic ++ [⟨some r.raw, r, d, false⟩] := by
+  unfold Session.handleRecord Session.handleRecordRaw
+  rw [ht]
+  simp only [if_true, Session.handshakeRecord, h0.1, h0.2, Bool.or_self, Bool.false_eq_true, if_false, hb]
+  by_cases h1 : t = 1
+  · simp only [h1, if_true]; rfl
+  · have h2 : t = 2 := by rcases ht12 with h | h; exact absurd h h1; exact h
+    simp only [h1, if_false, h2, if_true]
+    have htr := Session.serverHello_traffic O s r
+    cases hsh : Session.serverHello O s r with
+    | ok s' => rw [hsh] at htr; simp only [Session.tryExcept, Session.Out.st, Session.pushMeta, Session.St.push] at htr ⊢; simp [htr]
+    | raised s' => rw [hsh] at htr; simp only [Session.tryExcept, Session.Out.st, Session.pushMeta, Session.St.push] at htr ⊢; simp [htr]
+
+/-- the protected Finished of TLS ≤ 1.2 with `-a`: the decrypted message, then the record itself -/
+theorem hsEnc_meta_traffic (H : Crypto.Prims) (P : Prims) (L : SealLaws P) (kl : List Keylog.Key) (cls : CipherClass)
+    (h13 : cls.is13 = false) (macLen : Nat) (ver : Bytes) (hv : ver.length = 2) (x : Snd) (s : Session.St Dec)
+    (hs : Ready cls macLen x s) (srv : Bool) (hcc : ccOf s srv = true) (body : Bytes) (f : Fresh)
+    (hok : SendOk cls macLen body f) (hq : x.c.seq < seqLimit ∧ x.s.seq < seqLimit) (car : List Nat) (d' : Bool) :
+    dirPlain d' (Session.handleRecord (Pipeline.ops H P kl) true s
+        ⟨(protect P L cls ver (x.get srv) 22 body f).2, car⟩ srv).traffic
+      = dirPlain d' s.traffic ++ (if d' = srv then body ++ (protect P L cls ver (x.get srv) 22 body f).2 else []) := by
+  obtain ⟨hcan, ⟨v, hver, hv13⟩, d, hdec, hR⟩ := hs
+  obtain ⟨h1, h2, h3, h4⟩ := step_exact P L cls macLen ver hv x d hR (.send srv 22 body f) hok hq
+  simp only [step, expected] at h1
+  generalize ho : protect P L cls ver (x.get srv) 22 body f = o at *
+  have hd : (Pipeline.ops H P kl).decrypt d ⟨o.2, car⟩ srv
+      = ((recvStep P d (.record srv o.2)).1, some (some body)) := by
+    rw [ops_decrypt, h1, delivered_legacy cls h13]; rfl
+  have htyp : (⟨o.2, car⟩ : Session.Rec).typ = some 22 := by rw [← ho]; exact protect_head_legacy P L cls h13 ver _ 22 body f
+  have hor : (s.srvCC || s.cliCC) = true := by
+    cases srv <;> simp only [ccOf, if_true, Bool.false_eq_true, if_false] at hcc <;> simp [hcc]
+  have hgate : (s.srvCC && srv && s.canDecrypt || s.cliCC && !srv && s.canDecrypt) = true := by
+    cases srv <;> simp only [ccOf, if_true, Bool.false_eq_true, if_false] at hcc <;> simp [hcc, hcan]
+  have heq : Session.handleRecord (Pipeline.ops H P kl) true s ⟨o.2, car⟩ srv = Session.pushMeta true
+      (if (true && decide (some body ≠ some ([] : Bytes))) = true then
+        ({ s with dec := some (recvStep P d (.record srv o.2)).1 } : Session.St Dec).push ⟨some body, ⟨o.2, car⟩, srv, false⟩
+       else { s with dec := some (recvStep P d (.record srv o.2)).1 }) ⟨o.2, car⟩ srv := by
+    unfold Session.handleRecord Session.handleRecordRaw
+    rw [htyp]
+    simp only [if_true]
+    unfold Session.handshakeRecord
+    rw [if_pos hor]
+    unfold Session.handshakeFinished
+    simp only [hdec]
+    rw [if_pos hgate, hd]
+    simp only
+    by_cases hb : (true && decide (some body ≠ some ([] : Bytes))) = true
+    · rw [if_pos hb, if_pos hb]; rfl
+    · rw [if_neg hb, if_neg hb]; rfl
+  rw [heq]
+  by_cases hbody : body = []
+  · subst hbody
+    simp only [ne_eq, not_true_eq_false, decide_false, Bool.and_false, Bool.false_eq_true, if_false, Session.pushMeta,
+      if_true, Session.St.push, List.nil_append]
+    exact dirPlain_push d' srv s.traffic o.2 _ false
+  · have hne : (true && decide (some body ≠ some ([] : Bytes))) = true := by simp [hbody]
+    rw [if_pos hne]
+    simp only [Session.pushMeta, if_true, Session.St.push]
+    rw [dirPlain_push, dirPlain_push, List.append_assoc]
+    congr 1
+    by_cases hdd : d' = srv <;> simp [hdd]
+
 end TLX.Lemmas.Capstone2
